@@ -17,7 +17,11 @@ open Pyndl Pyndl.Corpus List
     source tree (`Generated.lean` is regenerated from /repo on every run) -/
 theorem constants_current :
     Generated.framesPerSecond = specFps ∧ Generated.breakDurationTimes10 = 50 ∧
-    Generated.corpusMarker.toList = specMarker := by decide +kernel
+    Generated.corpusMarker.toList = specMarker ∧
+    Generated.corpusPunctuation.toList = punctuation ∧
+    Generated.corpusSuffix = ".gz" ∧
+    Generated.notFoundSuffix.toList = notFoundSuffix ∧
+    Generated.notFoundTemplate = "{path}-{counter}" := by decide +kernel
 
 /-- **corpus_eq.** When the directory exists, the output file does not, and
     every `.gz` path is a document that parses or a missing file, the run
